@@ -54,7 +54,7 @@ def rand_spec(rng):
     return ["cond", [[b, rand_simple(rng)] for b in bounds]]
 
 
-MALFORMED = ["", "   ", "<3", "3<", "2<3 <", "abc", "3<x", "x<3", "5%0", "%", "-", "2<-", "1.5", "2<1.5", "3 4",
+MALFORMED = ["3<4 <5", "3<4<5", "2<3<4 5<6", "1<2 <3 4<5", "", "   ", "<3", "3<", "2<3 <", "abc", "3<x", "x<3", "5%0", "%", "-", "2<-", "1.5", "2<1.5", "3 4",
              "2<3 x", "2<<3", "50%%", "2<50%%", "--3", "2<--3", "٣x"]
 
 
